@@ -3,6 +3,7 @@ package props
 import (
 	"fmt"
 	"go/token"
+	"go/types"
 	"sort"
 	"strings"
 
@@ -64,6 +65,7 @@ func checkC16(r *core.Run) {
 	blockdbFlushDrains(r, p, "R-C16-flags")
 	c16Retention(r, p)
 	c16ResumePosition(r, p, "R-C16-position")
+	c16RecordFromZero(r, p, "R-C16-layout")
 }
 
 func c16Layouts(r *core.Run, p *core.Program, wo, lb *ssa.Function) {
@@ -932,4 +934,68 @@ func c16ResumePosition(r *core.Run, p *core.Program, rule string) {
 		bad = append(bad, "LoadBlockIndex never sets the append position from a record")
 	}
 	r.Check(len(bad) == 0, rule, "resume-position/loader", p.Pos(lb.Pos()), fmt.Sprintf("%d assignment(s) of the append position while loading, each = record[40:48] + record[48:52]", n), strings.Join(bad, "; "))
+}
+
+// c16RecordFromZero: the flags byte of the 136-byte index record is assembled with "|=".  That is only right
+// when the record starts from zero in every call: the buffer handed to the index file is a local array of
+// this call (zeroed by the language), or - for a buffer that lives longer - byte 0 receives a plain
+// assignment before any "|=".  Otherwise flag bits of earlier records (trusted, compressed ...) stick to
+// every later record.
+func c16RecordFromZero(r *core.Run, p *core.Program, rule string) {
+	const key = "index-record-starts-from-zero"
+	wo := p.Func("lib/chain.(*BlockDB).writeOne")
+	if wo == nil {
+		r.Fail(rule, key, "-", "writeOne not found")
+		return
+	}
+	var base ssa.Value
+	for _, c := range an.CallsTo(wo, false, "(*os.File).Write") {
+		a := c.Common().Args
+		if strings.HasSuffix(an.Expr(a[0]), ".blockindx") {
+			if sl, ok := a[1].(*ssa.Slice); ok {
+				base = sl.X
+			}
+		}
+	}
+	if base == nil {
+		r.Fail(rule, key, p.Pos(wo.Pos()), "the write of the index record was not found")
+		return
+	}
+	if al, ok := base.(*ssa.Alloc); ok && al.Parent() == wo {
+		if _, isArr := an.Deref(al.Type()).Underlying().(*types.Array); isArr {
+			r.OK(rule, key, p.Pos(al.Pos()), "the record is a local array of writeOne: zero at the start of every call")
+			return
+		}
+	}
+	// longer-lived buffer: a plain store to byte 0 must dominate every read-modify-write of it
+	var plain, rmw []*ssa.Store
+	an.Instrs(wo, func(i ssa.Instruction) {
+		st, ok := i.(*ssa.Store)
+		if !ok {
+			return
+		}
+		ia, ok := st.Addr.(*ssa.IndexAddr)
+		if !ok || an.Expr(ia.X) != an.Expr(base) || an.Expr(ia.Index) != "0" {
+			return
+		}
+		if strings.Contains(an.Expr(st.Val), strings.TrimPrefix(an.Expr(base), "&")+"[0]") {
+			rmw = append(rmw, st)
+		} else {
+			plain = append(plain, st)
+		}
+	})
+	okAll := len(rmw) > 0 || len(plain) > 0
+	for _, m := range rmw {
+		dom := false
+		for _, s := range plain {
+			if s.Block() == m.Block() && c17Before(s, m) || s.Block() != m.Block() && s.Block().Dominates(m.Block()) {
+				dom = true
+			}
+		}
+		if !dom {
+			okAll = false
+		}
+	}
+	r.Check(okAll, rule, key, p.Pos(wo.Pos()), "the record buffer outlives the call, but its flags byte is assigned before bits are OR-ed into it",
+		"the index record is assembled in "+clip(an.Expr(base), 60)+", which keeps its contents between calls, and flag bits are OR-ed into byte 0 without resetting it: flags of earlier records stick")
 }
